@@ -9,6 +9,7 @@ Template directives (lines starting with `//@`):
   //@ props C07 C09             properties served
   //@ if S|P / else / endif     conditional text
   //@ include FILE              include another template (relative to vx/)
+  (fn sub-directive) //@ loopall   loop annotation inserted into every loop of the function that has no `//@ loop K` of its own
   //@ fn FILE PATH [k=v ...]    extract function PATH (name | Type::name | Trait for Type::name)
   //@ item KIND FILE NAME       extract struct/enum/const/trait verbatim
   //@ macrofn FILE MACRO FN [use=FILE2 inst=StructName] [k=v ...]
@@ -577,7 +578,43 @@ def rule_R10_gates(text):
     return text, n + k
 
 
-RULES = [('R10', rule_R10_gates), ('R16', rule_R16_copy), ('R7', rule_R7_sqrt), ('R5', rule_R5_strip), ('R2', rule_R2_unchecked), ('R34', rule_R34_asserts), ('R6', rule_R6_minmax)]
+
+def rule_R18_array_pattern(text):
+    """R18: `let [A, B, ..] = E;` (array pattern, rejected by Verus) -> `let verif_apK = E; let A = verif_apK[0]; let B = verif_apK[1]; ..`
+    (`_` elements are skipped).  Exact for arrays of Copy elements: the pattern moves each element out by value; a pattern whose arity
+    differs from the array length does not compile, and the constant indices are bounds obligations."""
+    n = 0
+    while True:
+        m = rsscan.mask(text)
+        mt = re.search(r'\blet\s+\[([^\]=;]*)\]\s*=\s*', m)
+        if not mt:
+            break
+        # end of the statement
+        q, d = mt.end(), 0
+        while q < len(m):
+            if m[q] in '([{':
+                d += 1
+            elif m[q] in ')]}':
+                d -= 1
+            elif m[q] == ';' and d == 0:
+                break
+            q += 1
+        if q >= len(m):
+            break
+        names = [x.strip() for x in text[mt.start(1):mt.end(1)].split(',') if x.strip()]
+        tmp = 'verif_ap%d' % n
+        new = 'let %s = %s;' % (tmp, text[mt.end():q])
+        for k, nm in enumerate(names):
+            if nm != '_':
+                new += ' let %s = %s[%d];' % (nm, tmp, k)
+        text = text[:mt.start()] + new + text[q + 1:]
+        n += 1
+        if n > 400:
+            break
+    return text, n
+
+
+RULES = [('R18', rule_R18_array_pattern), ('R10', rule_R10_gates), ('R16', rule_R16_copy), ('R7', rule_R7_sqrt), ('R5', rule_R5_strip), ('R2', rule_R2_unchecked), ('R34', rule_R34_asserts), ('R6', rule_R6_minmax)]
 
 
 # --------------------------------------------------------------------------------------------
@@ -630,6 +667,7 @@ class FnEdit:
         self.ret = None
         self.spec = None     # (text, tmpl_line)
         self.loops = {}      # k -> (text, line)
+        self.loopall = None  # (text, line): loop annotation for every loop without its own `loop K`
         self.start = None
         self.anchors = []    # (where, n, regex, text, line)
         self.subs = []       # (regex, repl)
@@ -742,6 +780,11 @@ class Generator:
                 self.log.append({'assumption': d[len('assume'):].strip()})
             elif cmd == 'include':
                 self._process_template(os.path.join(VX_DIR, tok[1]), self._kv(tok[2:]))
+            elif cmd == 'avxsigs':
+                import avxsigs
+                self.Inconclusive = Inconclusive
+                for gl in avxsigs.generate(self, tok[1]):
+                    self.emit(gl, 'tmpl', rel, i + 1)
             elif cmd == 'item':
                 self._do_item(tok[1], tok[2], tok[3], tok[4:], rel, i + 1)
             elif cmd == 'pin':
@@ -753,9 +796,10 @@ class Generator:
                     # everything else in this unit becomes INCONCLUSIVE (run.py)
                     self.pin_failures.append('%s:%d: pinned text %r no longer found in %s' % (rel, i + 1, rg, tok[1]))
                 self.log.append({'pin': tok[1], 'regex': rg})
-            elif cmd == 'itemsub':
-                rg, rp = d[len('itemsub'):].split('=>', 1)
-                self.pending_item_subs.append((rg.strip(), rp.strip()))
+            elif cmd in ('itemsub', 'itemsub?'):
+                # `itemsub?`: a general type rewrite that may match zero times
+                rg, rp = d[len(cmd):].split('=>', 1)
+                self.pending_item_subs.append((rg.strip(), rp.strip(), cmd.endswith('?')))
             elif cmd in ('fn', 'macrofn', 'macroexpr'):
                 j = i + 1
                 block = []
@@ -812,6 +856,8 @@ class Generator:
                 e.spec = (text, l0)
             elif kind == 'loop':
                 e.loops[int(args[0])] = (text, l0)
+            elif kind == 'loopall':
+                e.loopall = (text, l0)
             elif kind == 'start':
                 e.start = (text, l0)
             elif kind in ('before', 'after'):
@@ -869,7 +915,7 @@ class Generator:
                     # conditional inside fn block: only whole sub-directives
                     cur = ('cond', tok[1:], [], lno)
                     raise Inconclusive('%s:%d: //@ if inside fn block unsupported' % (rel, lno))
-                elif c in ('spec', 'loop', 'start', 'before', 'after', 'afterloop'):
+                elif c in ('spec', 'loop', 'loopall', 'start', 'before', 'after', 'afterloop'):
                     cur = (c, tok[1:], [], lno + 1)
                 elif c in ('specS', 'specP'):
                     # mode-specific spec
@@ -919,8 +965,10 @@ class Generator:
                     prev_end = pls - 1
                 else:
                     break
-        for rg, rp in self.pending_item_subs:
+        for rg, rp, opt in self.pending_item_subs:
             text, k = re.subn(rg, rp, text)
+            if k == 0 and opt:
+                continue
             if k == 0:
                 raise Inconclusive('item %s: itemsub %r did not match' % (name, rg))
             self._count('local-sub', k)
@@ -1398,6 +1446,11 @@ class Generator:
                 raise Inconclusive('%s: loop %d not found (%d loops)' % (path, k, len(loops)))
             ins.append((loops[k - 1][1], ltext, lline))
             self.clauses += len(re.findall(r'(?m)^\s*(invariant|decreases|ensures)\b|,\s*$', ltext))
+        if edit.loopall:
+            for k, (kw, lo) in enumerate(loops, 1):
+                if k not in edit.loops:
+                    ins.append((lo, edit.loopall[0], edit.loopall[1]))
+                    self.clauses += len(re.findall(r'(?m)^\s*(invariant|decreases|ensures)\b|,\s*$', edit.loopall[0]))
         # R13 loops without their own annotation still need a termination measure
         for k, (kw, lo) in enumerate(loops, 1):
             if k not in edit.loops:
